@@ -4,6 +4,7 @@ import AlgoVerif.Proofs.C08LeftFactorMain
 import AlgoVerif.Proofs.C08LeftRecTotal
 import AlgoVerif.Proofs.C08LeftFactorTotal
 import AlgoVerif.Proofs.C08Productive
+import AlgoVerif.Proofs.C08Aux
 /-!
 # C08 — CFG transformations preserve the generated language (statements; proofs in `Proofs/C08*.lean`)
 
@@ -299,3 +300,29 @@ theorem C08_leftfactoring_total (g : G) (hv : Valid g) (hn : AlgoVerif.C08.lfNam
 /-- `LeftFactor` never diverges on a well-formed grammar. -/
 theorem C08_leftfactoring_ne_diverge (g : G) (hw : WellFormed g) : leftFactor g ≠ .diverge :=
   AlgoVerif.C08.C08_leftfactor_ne_diverge hw
+
+/-! ## the helpers the transformations rest on (`Model/C08Aux.lean`; corresponded op by op: `cmp`, `hash`, `order`,
+`orderprods`, `eq`, `symbols`, `match`, `iscnf`, `verify`, `write`) -/
+
+/-- **The comparators are the orders the Model sorts by.**  `CmpString` / `CmpProduction` answer `-1` exactly when
+`bodyLt` / `prodLt` hold — the strict orders by which `orderNT`, `cnfBin` and `lfHead` of the Model walk productions and
+prefix groups — and `0` on equal operands; so the order the implementation's comparators are seen to produce on every run
+is the order the theorems above are about. -/
+theorem C08_comparators_are_model_orders (l r : List SSym) (p q : SProd) :
+    (cmpBody l r = -1 ↔ bodyLt l r = true) ∧ (cmpProd p q = -1 ↔ prodLt p q = true) ∧
+    cmpBody l l = 0 ∧ cmpProd p p = 0 := by
+  refine ⟨cmpOfLt_neg_one _ _ _, cmpOfLt_neg_one _ _ _, cmpOfLt_self _ _ (bodyLt_irrefl l), cmpOfLt_self _ _ ?_⟩
+  simp [prodLt, String.lt_irrefl, bodyLt_irrefl]
+
+example : cmpBody [.nonterm "A", .term "a"] [.term "a", .term "b"] = -1 ∧
+    cmpBody [.term "b"] [.term "a"] = 1 ∧ cmpBody [] [] = 0 ∧
+    cmpProd ⟨"A", [.term "a"]⟩ ⟨"S", []⟩ = -1 ∧ cmpSymbol (.term "z") (.nonterm "A") = -1 := by decide
+
+/-- **`Equal` grammars generate the same language**: what `CFG.Equal` compares (the three sets as sets, the start
+symbol) determines the language. -/
+theorem C08_equal_grammars_same_language (g h : G) (he : equalG g h = true) (w : List String) :
+    Language g w ↔ Language h w :=
+  equalG_language he w
+
+example : equalG ⟨["a", "b"], ["S"], [⟨"S", [.term "a"]⟩, ⟨"S", []⟩], "S"⟩
+    ⟨["b", "a"], ["S"], [⟨"S", []⟩, ⟨"S", [.term "a"]⟩], "S"⟩ = true := by decide
